@@ -155,21 +155,25 @@ func gsvdResiduals(name string, a0, b0, u, v, q, zr mat, haveU, haveV, haveQ boo
 	return nil
 }
 
-// rankDefBranch re-keys failures that come from the "n-l > k" branch of Dggsvp3
-// (the block [A11 A12] has rank k < n-l and is compressed by an RQ factorization),
-// which has known defects: Q is updated with Dorm2r instead of Dormr2 (wrong Q, or
-// a panic "insufficient length of a"), and the clean-up loop writes a[j] = 0
-// instead of r[j] = 0 (A12 keeps reflector data below its diagonal and leading
-// entries of the first row of A are destroyed). kl < 0 means "outputs unknown".
-func rankDefBranch(f *vk.Failure, n, k, l int, wantq bool) *vk.Failure {
+// rankDefBranch re-keys failures on numerically rank-deficient inputs of
+// Dggsvp3, which has known defects there:
+//   - it passes iwork[i] = 0 to Dgeqp3, which in gonum means "leading column"
+//     (free columns are -1), so the "QR with column pivoting" never pivots; the
+//     rank is then read off a diagonal that is not monotone and non-negligible rows
+//     of B (or A11) are zeroed;
+//   - in the branch n-l > k, Q is updated with Dorm2r instead of Dormr2 (wrong Q,
+//     or a panic "insufficient length of a"), and the clean-up loop writes
+//     a[j] = 0 instead of r[j] = 0.
+// k < 0 means "outputs unknown" (the call panicked).
+func rankDefBranch(f *vk.Failure, m, p, n, k, l int, wantq bool) *vk.Failure {
 	if f == nil {
 		return nil
 	}
-	if k >= 1 && n-l > k {
-		return vk.Failf("rank-deficient-a11-branch", "[%s] %s", f.Key, f.Msg)
+	if k >= 0 && (l < min(p, n) || k < min(m, n-l) || (k >= 1 && k+l < n)) {
+		return vk.Failf("rank-deficient-input", "[%s] %s", f.Key, f.Msg)
 	}
 	if k < 0 && wantq && f.Key == "valid-call-panics" && strings.Contains(f.Msg, "insufficient length of a") {
-		return vk.Failf("rank-deficient-a11-branch", "[%s] %s", f.Key, f.Msg)
+		return vk.Failf("rank-deficient-input", "[%s] %s", f.Key, f.Msg)
 	}
 	return f
 }
@@ -179,7 +183,7 @@ func rankDefBranch(f *vk.Failure, n, k, l int, wantq bool) *vk.Failure {
 func checkGgsvd3(c kase) *vk.Failure {
 	k, l := -1, -1
 	f := checkGgsvd3Inner(c, &k, &l)
-	return rankDefBranch(f, c.N, k, l, c.J[2] == 1)
+	return rankDefBranch(f, c.M, c.P, c.N, k, l, c.J[2] == 1)
 }
 
 func checkGgsvd3Inner(c kase, kOut, lOut *int) *vk.Failure {
@@ -334,7 +338,7 @@ func TestGgsvd3(t *testing.T) {
 func checkGgsvp3(c kase) *vk.Failure {
 	k, l := -1, -1
 	f := checkGgsvp3Inner(c, &k, &l)
-	return rankDefBranch(f, c.N, k, l, c.J[2] == 1)
+	return rankDefBranch(f, c.M, c.P, c.N, k, l, c.J[2] == 1)
 }
 
 func checkGgsvp3Inner(c kase, kOut, lOut *int) *vk.Failure {
